@@ -60,6 +60,14 @@ fn gen_dist(r: &mut SplitMix64) -> Dist {
     let any = [0.0, -0.0, 1.0, -1.0, 1e300, -1e300, f64::MAX, -f64::MAX, sub, f64::NAN, f64::INFINITY, f64::NEG_INFINITY];
     let fin = [0.0, -0.0, sub, 1.0, -1.0, 1e-300, 1e300, -1e300, f64::MAX, -f64::MAX];
     let probs = [0.0, 1e-9, 1.0000000000000002e-9, 0.1, 0.5, 2.0 / 3.0, 0.9999999999999999, 1.0];
+    // the property quantifies over what validation ACCEPTS: a third of the candidates take their "positive"
+    // parameters and probabilities from pools that also hold the values a sound validator refuses (zero, negative
+    // zero, negatives, NaN, infinities, one ulp outside a bound); on the unchanged code they are filtered out below
+    let posx = [0.0, -0.0, -1.0, -f64::MIN_POSITIVE, f64::NAN, f64::NEG_INFINITY, f64::INFINITY, sub, 1.0, 1e300];
+    let probsx = [-0.0, -1e-300, 9.999999999999999e-10, 1.0000000000000002, 2.0, f64::NAN, f64::INFINITY, 0.5];
+    let lax = r.chance(1, 3);
+    let pos: &[f64] = if lax { &posx } else { &pos };
+    let probs: &[f64] = if lax { &probsx } else { &probs };
     loop {
         let dt = match r.below(11) {
             0 => {
@@ -68,15 +76,15 @@ fn gen_dist(r: &mut SplitMix64) -> Dist {
                 DistType::Uniform { low: a.min(b), high: a.max(b) }
             }
             1 => DistType::Normal { mean: corner(r, &any), stdev: corner(r, &fin) },
-            2 => DistType::SkewNormal { location: corner(r, &any), scale: corner(r, &pos), shape: corner(r, &fin) },
+            2 => DistType::SkewNormal { location: corner(r, &any), scale: corner(r, pos), shape: corner(r, &fin) },
             3 => DistType::LogNormal { mu: corner(r, &any), sigma: corner(r, &fin) },
-            4 => DistType::Binomial { trials: *r.pick(&[0, 1, 2, 15, 20, 100, 1000, 1_000_000, 1_000_000_000]), probability: corner(r, &probs) },
-            5 => DistType::Geometric { probability: corner(r, &probs) },
-            6 => DistType::Pareto { scale: corner(r, &pos), shape: corner(r, &pos) },
-            7 => DistType::Poisson { lambda: corner(r, &[sub, 1e-300, 0.5, 1.0, 11.9, 12.0, 12.1, 1e3, 1e6, 1e15, 1e42]) },
-            8 => DistType::Weibull { scale: corner(r, &pos), shape: corner(r, &pos) },
-            9 => DistType::Gamma { scale: corner(r, &pos), shape: corner(r, &pos) },
-            _ => DistType::Beta { alpha: corner(r, &pos), beta: corner(r, &pos) },
+            4 => DistType::Binomial { trials: if lax { *r.pick(&[1_000_000_001, u64::MAX, 1 << 32, 5]) } else { *r.pick(&[0, 1, 2, 15, 20, 100, 1000, 1_000_000, 1_000_000_000]) }, probability: corner(r, probs) },
+            5 => DistType::Geometric { probability: corner(r, probs) },
+            6 => DistType::Pareto { scale: corner(r, pos), shape: corner(r, pos) },
+            7 => DistType::Poisson { lambda: if lax { corner(r, &[0.0, -0.0, -1.0, f64::NAN, f64::INFINITY, 1.0000000000000001e42, 1e43, 1.0]) } else { corner(r, &[sub, 1e-300, 0.5, 1.0, 11.9, 12.0, 12.1, 1e3, 1e6, 1e15, 1e42]) } },
+            8 => DistType::Weibull { scale: corner(r, pos), shape: corner(r, pos) },
+            9 => DistType::Gamma { scale: corner(r, pos), shape: corner(r, pos) },
+            _ => DistType::Beta { alpha: corner(r, pos), beta: corner(r, pos) },
         };
         let start = if r.chance(1, 2) { 0.0 } else { corner(r, &any) };
         let max = if r.chance(1, 2) { 0.0 } else { corner(r, &any) };
